@@ -250,6 +250,10 @@ class Exec:
             return SVal('T3', self.th.T3.mk3(*[self.to_int(x) for x in v.t]))
         if kind == 'E' and v.kind == 'ME' or kind == 'ME' and v.kind == 'E':
             return SVal(kind, v.t)
+        if kind == 'V' and v.kind == 'map':
+            return SVal('V', self.th.of_map(v.t))          # a dict is a value
+        if kind == 'V' and v.kind == ('seq', 'V'):
+            return SVal('V', self.th.of_list(v.t))         # a list of values is a value
         if kind == 'emap' and v.kind == 'map' and v.t.eq(self.th.m_empty):
             return SVal('emap', self.th.em_empty)
         if isinstance(kind, tuple) and isinstance(v.kind, tuple) and kind[0] == 'seq' and v.kind[0] == 'seq' \
@@ -867,6 +871,10 @@ class Exec:
             return const(has('str'))
         if k == 'map':
             return const(has('dict'))
+        if k == 'V' and names <= {'dict', 'list', 'str'}:
+            tags = {'dict': self.th.is_dict, 'list': self.th.is_list, 'str': self.th.is_str}
+            parts = [tags[n](v.t) for n in sorted(names)]
+            return SVal('bool', parts[0] if len(parts) == 1 else z3.Or(*parts))
         if k == CONST:
             return const(isinstance(v.t, tuple({'int': int, 'str': str, 'list': list, 'dict': dict, 'bool': bool}[n]
                                                    for n in names if n in ('int', 'str', 'list', 'dict', 'bool'))))
@@ -1239,6 +1247,11 @@ class Exec:
                     raise OutOfSubset('missing argument %s for %s' % (pname, c.qualname))
                 bound[pname] = self.ev_default(dflt, c)
             v = bound[pname]
+            if v.kind == 'V' and pkind in (('seq', 'V'), 'map'):
+                # a typed value handed to a callee that takes a list / dict: the tag must be known here (downcast)
+                tag = self.th.is_list(v.t) if pkind == ('seq', 'V') else self.th.is_dict(v.t)
+                self.oblige(st, 'cast', node, tag, 'argument %s of %s is a %s' % (pname, c.qualname, 'list' if pkind == ('seq', 'V') else 'dict'))
+                v = SVal(pkind, self.th.as_list(v.t) if pkind == ('seq', 'V') else self.th.as_map(v.t))
             if pkind != OPAQUE and not (v.kind == CONST and v.t is None):
                 v = self.lift(v, pkind) if not (isinstance(pkind, tuple) and pkind[0] == 'obj') else v
             frame.env[pname] = v
@@ -2005,6 +2018,9 @@ SPEC_FUNCS = {
     'is_str': (['V'], 'bool', lambda th: th.is_str),
     'as_list': (['V'], ('seq', 'V'), lambda th: th.as_list),
     'of_list': ([('seq', 'V')], 'V', lambda th: th.of_list),
+    'as_map': (['V'], 'map', lambda th: th.as_map),
+    'of_map': (['map'], 'V', lambda th: th.of_map),
+    'wf_v': (['V', ('seq', 'E')], 'bool', lambda th: th.wf_v),
     'diffable': (['V', 'V'], 'bool', lambda th: th.diffable),
     'pred_typed': (['fn', 'path'], 'bool', lambda th: th.pred_typed),
     'any_cmp': ([('seq', 'fn'), 'V', 'V'], 'bool', lambda th: th.any_cmp),
